@@ -19,7 +19,9 @@ CHECKS = {
    note="Pure comparison between real handler/library calls; completion is asked in a usefixtures/pytestmark context of the same file so that no name is filtered.", ref="4/C05"),
  "C06": dict(engine="E2", technique="explicit-state BFS (stateright) over edit histories with a real FixtureDatabase per state; oracle = freshly built server, evaluated on every transition",
    text="All histories of full-text versions (6-7 versions per file incl. rename, shift, removal, syntax break, identical re-send) over 3 files (quick, depth 3) / 4 files incl. an imported helper (thorough, depth 4); after EVERY transition the live index equals, as multisets, a fresh server fed the last valid contents; the undeclared findings of the last-changed document equal fresh analysis; all answers equal the fresh server's for some feed order.",
-   note="State identity = per-file (current, last valid) versions + depth; merging is sound because the oracle is evaluated per transition before merging. The existential over feed orders deliberately excludes registration-order dependence (C08). Queries are not asked inside currently-invalid documents.", ref="4/C06"),
+   note="State identity = per-file (current, last valid) versions + depth; merging is sound because the oracle is evaluated per transition before merging. The existential over feed orders deliberately excludes registration-order dependence (C08). Queries are not asked inside currently-invalid documents.", ref="4/C06"), "C16": dict(engine="E3", technique="bounded-exhaustive enumeration of small dependency graphs x scopes x registration orders (+ hash-seed sweep) on the real diagnostics, against a reference graph over definitions",
+   text="Definition slots = 3 names × 3 files (root conftest, sub conftest, test module); every set of ≤3 slots with every dependency list (≤2 of {a,b,c,unknown}; thorough also 4 slots with ≤1) and every scope vector (all 5 scopes for ≤2 slots, subsets for 3), under all 6 analysis orders and a sweep of hash seeds; the reference graph resolves each dependency from the depending fixture's file by PytestLookup: every reported path must be a closed chain of definitions, every cyclic SCC and every definition on a cycle must be reported, overrides with a parent are not cycles, scope mismatches are exactly the narrower resolved dependencies, and reports are identical across orders, seeds and recomputation.",
+   note="Hash seeds are a labelled sweep (2^128 keys cannot be enumerated). Trusted: reference model, getrandom shim pinning RandomState per fresh thread.", ref="4/C16"),
 }
 m = {
  "version": 1,
